@@ -846,6 +846,46 @@ def negative_cases(ctx):
                 ctx.viol(f"negative:{style}:error-does-not-name-it:{cell}", f"error does not name {name!r}: {o.exc_msg[:200]}", common.witness(f, klass="negative"))
 
 
+def form_root_name_cases(ctx):
+    """${name} names questions, groups and repeats - not the form. A reference to the form's own root name is a reference to nothing (refused like
+    any unknown name) unless a question is called that, in which case it means the question."""
+    n = 1000
+    for root, via in (("data", None), ("myform", "settings"), ("hh", "arg")):
+        for cell in ("relevant", "label", "calculation", "constraint", "default", "choice_filter"):
+            for has_q in (False, True):
+                n += 1
+                if not ctx.mine(n):
+                    continue
+                R = "${%s}" % root
+                rows = [("text", "a", {"label": "A"})]
+                if has_q:
+                    rows.append(("begin group", "g", {"label": "G"}, [("integer", root, {"label": "named like the form"})]))
+                f = gen.simple_form(rows, choices={"l1": [{"name": "a", "label": "A"}]})
+                if via == "settings":
+                    f.settings["name"] = root
+                elif via == "arg":
+                    f.args["form_name"] = root
+                if cell == "choice_filter":
+                    f.survey.append(Row("q", "select_one l1", "s", {"label": "S", "choice_filter": f"name = {R}"}))
+                elif cell == "calculation":
+                    f.survey.append(Row("q", "calculate", "c", {"calculation": f"{R} + 1"}))
+                else:
+                    f.survey.append(Row("q", "text", "c", {"label": "x", cell: (f"{R} > 1" if cell != "label" else f"l {R}")}))
+                o = drive.convert_form(f)
+                ctx.ctr("negative_cases")
+                ctx.case(sig=f"form-root-name|{root}|{cell}|{has_q}")
+                wit = common.witness(f, klass="form-root-name")
+                if not has_q:
+                    if o.ok:
+                        ctx.viol(f"negative:form-root-name-accepted:{cell}", f"${{{root}}} in {cell}: no question, group or repeat is called {root!r} (it is the form's own root), yet the form was converted", wit)
+                    elif not o.exc_is_pyxform:
+                        ctx.viol(f"negative:form-root-name:internal-exception:{o.exc_type}:{cell}", o.brief(), wit)
+                elif not o.ok:
+                    ctx.viol(f"form-root-name:question-named-like-the-form-cannot-be-referenced:{cell}", f"the only element called {root!r} is the question /{root}/g/{root}; ${{{root}}} in {cell} was refused: {o.brief()[:200]}", wit)
+                elif f"/{root}/g/{root} " not in o.xform and f"/{root}/g/{root}\"" not in o.xform and f"/{root}/g/{root}&" not in o.xform and f"/{root}/g/{root}<" not in o.xform and f"/{root}/g/{root}'" not in o.xform:
+                    ctx.viol(f"form-root-name:reference-not-to-the-question:{cell}", f"${{{root}}} in {cell} did not become /{root}/g/{root}", wit)
+
+
 # ----------------------------------------------------------------------------- shard
 def run_shard(ctx):
     from ..hooks import counters, install_subst_hook
@@ -905,6 +945,7 @@ def run_shard(ctx):
         form = gen.gen_form(rng, cfg)
         check_form(ctx, form, "random", common.feature_sig(form))
     negative_cases(ctx)
+    form_root_name_cases(ctx)
     ctx.ctr("hook_evals", counters.get("subst", 0))
     ctx.ctr("hook_reference_parent_calls", counters.get("subst_reference_parent", 0))
     for msg in counters.get("subst_violations", []):
@@ -915,6 +956,9 @@ def replay(w):
     def chk(ctx, wit):
         if wit.get("klass") == "hook":
             print("hook witness: re-run ./check C03")
+            return
+        if wit.get("klass") == "form-root-name":
+            form_root_name_cases(ctx)  # small and deterministic: run the family whole
             return
         form = common.form_from_witness(wit)
         if wit.get("klass") == "negative":
